@@ -86,6 +86,7 @@ JOBS = [
     dict(job=('specs.studio', 'play', {'mode': 'explicit'}), props=['C19']),
     dict(job=('specs.studio', 'play', {'mode': 'lookup'}), props=['C19']),
     dict(job=('specs.studio', 'find_matching', {}), props=['C19', 'C10', 'C18']),
+    dict(job=('specs.cassettes', 'iter_metadata_unit', {}), props=['C10', 'C07']),
     # ---- key functions
     dict(job=('specs.keys', 'input_key', {}), props=['C06', 'C01', 'C02']),
     dict(job=('specs.keys', 'output_key', {}), props=['C03', 'C06']),
